@@ -68,7 +68,7 @@ vd_empty = z3.Function('view_doing_is_empty', ListSet(NODE).sort(), z3.ArraySort
 def condition_holds(view, which):
     """the condition of a priority, evaluated on the scheduler/farm state"""
     if which == 'crew':
-        return z3.Length(view.g('dawgie.pl.farm._busy')) == 0
+        return view.g('dawgie.pl.farm._busy') == SetOf(ATOM).empty()
     if which == 'doing':
         return vd_empty(view.g('dawgie.pl.schedule.que'), view.arr('Node.status'))
     return view.g('dawgie.pl.schedule.que') == ListSet(NODE).empty()
